@@ -328,6 +328,16 @@ func VerifC07Keys() {
 		r.key(b)
 		c07Compare(s, r, "after-key")
 	}
+	// every frame emitted on the way (C16/C01 on reached states): exactly as
+	// tall as the terminal, clean, neutral at line ends
+	s.m.Lock()
+	framesOK := true
+	for _, f := range log.frames {
+		sc := verifrt.Parse(f)
+		framesOK = framesOK && countLines(f) == s.height && sc.OK && sc.NeutralAtBreaks() && verifrt.CleanOutput(f)
+	}
+	s.m.Unlock()
+	verifrt.Assert(framesOK, "every-emitted-frame-is-terminal-height-clean-and-neutral")
 	verifrt.Observe("mode", s.mode)
 	verifrt.Reach("end")
 }
